@@ -518,6 +518,11 @@ pub struct BerCase {
     pub step: Fx,
     pub points: usize,
     pub extra_half_step: bool,
+    /// > 0: decimal grid, minimum and step in hundredths of a dB (min/step above are then ignored)
+    #[serde(default)]
+    pub dstep: i32,
+    #[serde(default)]
+    pub dmin: i32,
     pub frame_errors: u64,
     pub max_iter: usize,
     pub decoder: String,
@@ -542,11 +547,14 @@ fn ber_strategy(_t: Tier) -> BoxedStrategy<BerCase> {
                 proptest::collection::vec(prop::bool::weighted(0.3), r * r),
                 proptest::collection::vec(any::<u16>(), r),
                 (proptest::collection::vec(any::<bool>(), p), any::<u16>(), prop::bool::weighted(0.4), 0..3u8, any::<u16>(), any::<bool>()),
-                (prop_oneof![Just(-2.0f64), Just(-1.5), Just(0.0), Just(0.25), Just(1.0)], prop_oneof![Just(0.5f64), Just(0.25), Just(1.0)], 1usize..=3, any::<bool>()),
+                (prop_oneof![Just(-2.0f64), Just(-1.5), Just(0.0), Just(0.25), Just(1.0)], prop_oneof![Just(0.5f64), Just(0.25), Just(1.0)], 1usize..=3, any::<bool>(),
+                    // decimal grids (steps that are not binary fractions), long sweeps included
+                    prop_oneof![5 => Just((0i32, 0i32, 0usize)), 1 => (prop_oneof![Just(-100i32), Just(-50), Just(0), Just(30)], prop_oneof![Just(10i32), Just(20), Just(30), Just(70)], 1usize..=4), 2 => (prop_oneof![Just(-100i32), Just(0)], prop_oneof![3 => Just(10i32), 1 => Just(20)], 12usize..=21)]),
                 (3u64..=8, 3usize..=20, 0..36usize, 0u64..=1, any::<bool>(), prop_oneof![9 => Just(0u8), 1 => 1u8..=3]),
             )
         })
-        .prop_map(|((n, r, _p, bs, staircase), h0, tail, fix, (mut pat, a, use_pat, ikind, ipick, psk8), (min, step, points, extra_half_step), (frame_errors, max_iter, dec, bch, ldpc_file, fault))| {
+        .prop_map(|((n, r, _p, bs, staircase), h0, tail, fix, (mut pat, a, use_pat, ikind, ipick, psk8), (min, step, points, extra_half_step, (dmin, dstep, dpoints)), (frame_errors, max_iter, dec, bch, ldpc_file, fault))| {
+            let points = if dstep > 0 { dpoints } else { points };
             if !pat.iter().any(|&b| b) {
                 let i = idx(a, pat.len());
                 pat[i] = true;
@@ -562,7 +570,7 @@ fn ber_strategy(_t: Tier) -> BoxedStrategy<BerCase> {
             };
             // an outer-code threshold of 1 needs frames with >= 2 systematic bit errors: only with k >= 4
             let bch = if n - r >= 4 { bch } else { 0 };
-            BerCase { h: super::c12::systematic_h(r, n, &h0, &tail, staircase, &fix), min: Fx(min), step: Fx(step), points, extra_half_step, frame_errors, max_iter, decoder: super::impls::NAMES[dec].to_string(), bch, ldpc_file, pattern, interleaving, psk8, fault }
+            BerCase { h: super::c12::systematic_h(r, n, &h0, &tail, staircase, &fix), min: Fx(min), step: Fx(step), points, extra_half_step, dstep, dmin, frame_errors, max_iter, decoder: super::impls::NAMES[dec].to_string(), bch, ldpc_file, pattern, interleaving, psk8, fault }
         })
         .boxed()
 }
@@ -589,8 +597,21 @@ fn check_ber(c: &BerCase, p: &mut Probe) -> Check {
     let text = own_alist(&c.h, false);
     let (fa, fo, fl) = (s.path("h.alist"), s.path("out.txt"), s.path("out-ldpc.txt"));
     std::fs::write(&fa, &text).map_err(|e| Fail::new(INCONCLUSIVE, format!("scratch write: {e}")))?;
-    let max = c.min.0 + (c.points as f64 - 1.0) * c.step.0 + if c.extra_half_step { c.step.0 / 2.0 } else { 0.0 };
-    let mut args = sv(&["ber", &fa, "--output-file", &fo, "--min-ebn0", &format!("{}", c.min.0), "--max-ebn0", &format!("{max}"), "--step-ebn0", &format!("{}", c.step.0), "--frame-errors", &c.frame_errors.to_string(), "--max-iter", &c.max_iter.to_string(), "--decoder", &c.decoder]);
+    // decimal strings of hundredths of a dB
+    let dec = |h: i32| format!("{}{}.{:02}", if h < 0 { "-" } else { "" }, h.abs() / 100, h.abs() % 100);
+    let (smin, smax, sstep) = if c.dstep > 0 {
+        let hmax = c.dmin + (c.points as i32 - 1) * c.dstep + if c.extra_half_step { c.dstep / 2 } else { 0 };
+        (dec(c.dmin), dec(hmax), dec(c.dstep))
+    } else {
+        let max = c.min.0 + (c.points as f64 - 1.0) * c.step.0 + if c.extra_half_step { c.step.0 / 2.0 } else { 0.0 };
+        (format!("{}", c.min.0), format!("{max}"), format!("{}", c.step.0))
+    };
+    let (vmin, vmax, vstep): (f64, f64, f64) = (smin.parse().unwrap(), smax.parse().unwrap(), sstep.parse().unwrap());
+    // On a decimal grid whose last point is exactly the maximum, whether that point is "requested"
+    // is decided by floating-point rounding of (max - min) / step; the exact count is only demanded
+    // where the straightforward evaluation in f64 agrees with the exact decimal count.
+    let unambiguous = c.dstep == 0 || c.extra_half_step || ((vmax - vmin) / vstep).floor() as usize + 1 == c.points;
+    let mut args = sv(&["ber", &fa, "--output-file", &fo, "--min-ebn0", &smin, "--max-ebn0", &smax, "--step-ebn0", &sstep, "--frame-errors", &c.frame_errors.to_string(), "--max-iter", &c.max_iter.to_string(), "--decoder", &c.decoder]);
     // negative numbers must be passed as --opt=value
     for i in 0..args.len() {
         if (args[i] == "--min-ebn0" || args[i] == "--max-ebn0") && args[i + 1].starts_with('-') {
@@ -637,14 +658,21 @@ fn check_ber(c: &BerCase, p: &mut Probe) -> Check {
     expect_success(&run, &format!("{args:?}"))?;
     let out = std::fs::read_to_string(&fo).map_err(|e| Fail::new("no-output-file", format!("{args:?}: output file missing: {e}")))?;
     let lines = parse_result_lines(&out);
-    ensure!(lines.len() == c.points, "ber-lines", "{args:?}: {} result lines in the output file, {} Eb/N0 points requested:\n{out}", lines.len(), c.points);
+    if unambiguous {
+        ensure!(lines.len() == c.points, "ber-lines", "{args:?}: {} result lines in the output file, {} Eb/N0 points requested:\n{out}", lines.len(), c.points);
+    } else {
+        p.class("decimal-grid-end-point-ambiguous");
+        ensure!(lines.len() == c.points || lines.len() + 1 == c.points, "ber-lines", "{args:?}: {} result lines in the output file, {} or {} Eb/N0 points requested:\n{out}", lines.len(), c.points - 1, c.points);
+    }
+    p.class_if(c.dstep > 0, "decimal-grid");
+    p.class_if(c.dstep > 0 && c.points >= 12, "decimal-grid-long-sweep");
     let kf = k as f64;
     let check_line = |l: &Vec<String>, i: usize, which: &str, min_bits_per_err: u64, stop: bool| -> Check {
         ensure!(l.len() == 11, "ber-columns", "{which}: result line has {} columns: {l:?}", l.len());
         let f = |j: usize| l[j].parse::<f64>().map_err(|_| Fail::new("ber-parse", format!("{which}: cannot parse column {j} of {l:?}")));
         let u = |j: usize| l[j].parse::<u64>().map_err(|_| Fail::new("ber-parse", format!("{which}: cannot parse column {j} of {l:?}")));
         let eb = f(0)?;
-        let want_eb = c.min.0 + i as f64 * c.step.0;
+        let want_eb = vmin + i as f64 * vstep;
         ensure!((eb - want_eb).abs() < 0.006, "ber-ebn0", "{which}: line {i} is for Eb/N0 {eb}, requested point is {want_eb}");
         let (frames, biterr, frerr, falsedec) = (u(1)?, u(2)?, u(3)?, u(4)?);
         if stop {
@@ -667,7 +695,7 @@ fn check_ber(c: &BerCase, p: &mut Probe) -> Check {
     if c.bch > 0 && c.ldpc_file {
         let outl = std::fs::read_to_string(&fl).map_err(|e| Fail::new("no-output-file", format!("{args:?}: LDPC output file missing: {e}")))?;
         let ll = parse_result_lines(&outl);
-        ensure!(ll.len() == c.points, "ber-lines", "{args:?}: {} result lines in the LDPC-only file, {} points requested", ll.len(), c.points);
+        ensure!(ll.len() == lines.len(), "ber-lines", "{args:?}: {} result lines in the LDPC-only file, {} in the main file", ll.len(), lines.len());
         for (i, l) in ll.iter().enumerate() {
             check_line(l, i, "LDPC-only file", 1, false)?;
             // same frames, and at least as many LDPC frame errors as outer-code frame errors
@@ -725,7 +753,7 @@ pub fn property() -> Property {
             }),
             Box::new(Sub {
                 name: "ber",
-                rule: "tiny systematic H, Eb/N0 grid with binary-exact min/step (optionally max = last point + step/2), 1..=3 points, --frame-errors 3..=8, any of the 36 decoders, optional outer-code threshold 1 with LDPC-only file, optional puncturing / interleaving / 8PSK: exit 0, one result line per requested point in each output file with frame errors = requested (stop rule), bit errors within [min per frame error x frame errors, k x frames], false decodes <= frames, BER and FER equal to the ratios at the printed precision, k and N_cw in the header; missing alist, malformed pattern, unknown decoder: non-zero status, no panic; non-trivial = >= 2 points or outer code",
+                rule: "tiny systematic H, Eb/N0 grid with binary-exact min/step and 1..=3 points, or a decimal grid (step 0.1/0.2/0.3/0.7 dB, 1..=4 or 12..=21 points, passed as decimal strings; the exact number of points is demanded whenever max lies half a step beyond the last point or the f64 evaluation of floor((max-min)/step)+1 agrees with the exact decimal count), optionally max = last point + step/2, --frame-errors 3..=8, any of the 36 decoders, optional outer-code threshold 1 with LDPC-only file, optional puncturing / interleaving / 8PSK: exit 0, one result line per requested point in each output file with frame errors = requested (stop rule), bit errors within [min per frame error x frame errors, k x frames], false decodes <= frames, BER and FER equal to the ratios at the printed precision, k and N_cw in the header; missing alist, malformed pattern, unknown decoder: non-zero status, no panic; non-trivial = >= 2 points or outer code",
                 cases: |t| t.pick(400, 8_000),
                 strategy: ber_strategy,
                 check: check_ber,
